@@ -86,13 +86,22 @@ def comment_failures(r, src):
     # (`//` lines are printed above the `///` block of the same definition)
     # accepted when every `//` / `///` pair whose order flipped stood in the same gap between two
     # code tokens (`//` lines are printed above the `///` block of the same definition)
+    def uniq(xs):
+        seen = {}
+        out = []
+        for x in xs:
+            seen[x] = seen.get(x, 0) + 1
+            out.append((x, seen[x]))
+        return out
+
     run_of = _run_ids(src)
-    pos_b = {c: i for i, c in enumerate(b23)}
-    pos_a = {c: i for i, c in enumerate(a23)}
-    ok = len(pos_b) == len(b23)  # needs unique texts
+    ub, ua = uniq(b23), uniq(a23)
+    pos_b = {c: i for i, c in enumerate(ub)}
+    pos_a = {c: i for i, c in enumerate(ua)}
+    ok = set(pos_b) == set(pos_a)
     if ok:
-        docs = [c for c in b23 if kind(c) == "c3"]
-        lines = [c for c in b23 if kind(c) == "c2"]
+        docs = [c for c in ub if kind(c[0]) == "c3"]
+        lines = [c for c in ub if kind(c[0]) == "c2"]
         for d in docs:
             for c in lines:
                 if (pos_b[d] < pos_b[c]) != (pos_a[d] < pos_a[c]) and run_of.get(d) != run_of.get(c):
@@ -170,12 +179,15 @@ def doc_anchor_failures(src, fmt):
 
 
 def _run_ids(text):
-    """{comment text: index of the gap (between two code tokens) it stands in}"""
+    """{(comment text, k-th occurrence): index of the gap (between two code tokens) it stands in}"""
     out = {}
+    seen = {}
     gap = 0
     for t in lex.tokens(text):
         if t[0] in ("c2", "c3"):
-            out[t[1].rstrip()] = gap
+            x = t[1].rstrip()
+            seen[x] = seen.get(x, 0) + 1
+            out[(x, seen[x])] = gap
         elif t[0] != "c4":
             gap += 1
     return out
